@@ -93,6 +93,57 @@ static bool should_fail(void* fp) {
   }
   return f;
 }
+// ---- deterministic heap --------------------------------------------------------------------------------------
+#if defined(__SANITIZE_ADDRESS__)
+extern "C" void __asan_poison_memory_region(void const volatile* addr, size_t size);
+extern "C" void __asan_unpoison_memory_region(void const volatile* addr, size_t size);
+#define DH_POISON(p, n) __asan_poison_memory_region((p), (n))
+#define DH_UNPOISON(p, n) __asan_unpoison_memory_region((p), (n))
+#else
+#define DH_POISON(p, n) ((void) 0)
+#define DH_UNPOISON(p, n) ((void) 0)
+#endif
+static char* const DH_BASE = (char*) 0x510000000000ULL;
+static const size_t DH_CAP = 24ULL << 30, DH_RZ = 32;
+static bool g_dh_on = false; static size_t g_dh_cur = 0, g_dh_mark = 0;
+void sim_detheap_enable() {
+  if (!g_dh_on) {
+    void* p = mmap(DH_BASE, DH_CAP, PROT_READ | PROT_WRITE, MAP_PRIVATE | MAP_ANONYMOUS | MAP_NORESERVE | MAP_FIXED_NOREPLACE, -1, 0);
+    if (p != (void*) DH_BASE) { perror("deterministic heap: mmap"); abort(); }
+    // not poisoned up front (24 GiB of address space = 3 GiB of shadow): red zones are poisoned per block
+  }
+  g_dh_on = true;
+}
+void sim_detheap_mark() { g_dh_mark = g_dh_cur; }
+void sim_detheap_reset() {
+  if (!g_dh_on) return;
+  if (g_dh_cur > g_dh_mark) { size_t lo = (g_dh_mark + 4095) & ~(size_t) 4095; if (g_dh_cur > lo) { DH_UNPOISON(DH_BASE + lo, g_dh_cur - lo); madvise(DH_BASE + lo, g_dh_cur - lo, MADV_DONTNEED); } DH_POISON(DH_BASE + g_dh_mark, g_dh_cur - g_dh_mark); }
+  g_dh_cur = g_dh_mark;
+  // blocks leaked by the previous run lived in the discarded part: their addresses are about to be handed out again
+  pthread_mutex_lock(&g_tab_mu);
+  for (auto it = live().begin(); it != live().end();) { if ((char*) it->first >= DH_BASE + g_dh_mark && (char*) it->first < DH_BASE + DH_CAP) it = live().erase(it); else ++it; }
+  pthread_mutex_unlock(&g_tab_mu);
+}
+size_t sim_detheap_used() { return g_dh_cur; }
+static bool dh_owns(const void* p) { return g_dh_on && (const char*) p >= DH_BASE && (const char*) p < DH_BASE + DH_CAP; }
+static void* dh_alloc(size_t size) {
+  size_t user = (size + 15) & ~(size_t) 15; if (user == 0) user = 16;
+  pthread_mutex_lock(&g_tab_mu);
+  size_t off = g_dh_cur + DH_RZ; size_t end = off + user + DH_RZ;
+  if (end > DH_CAP) { pthread_mutex_unlock(&g_tab_mu); errno = ENOMEM; return NULL; }
+  g_dh_cur = end;
+  pthread_mutex_unlock(&g_tab_mu);
+  DH_POISON(DH_BASE + off - DH_RZ, DH_RZ); DH_POISON(DH_BASE + off + user, DH_RZ);
+  DH_UNPOISON(DH_BASE + off, size ? size : 1);
+  if (user > size) DH_POISON(DH_BASE + off + (size ? size : 1), user - (size ? size : 1));
+  return DH_BASE + off;
+}
+static void* raw_alloc(size_t n) { return g_dh_on ? dh_alloc(n) : malloc(n); }
+static void raw_free(void* p, size_t known_size) {
+  if (dh_owns(p)) { if (known_size != (size_t) -1) DH_POISON(p, known_size ? known_size : 1); return; }   // never reused within a run: use-after-free traps
+  free(p);
+}
+
 static bool too_big(size_t size) {
   if (size <= g_alloc.max_block) return false;
   __atomic_add_fetch(&g_alloc.huge_refused, 1, __ATOMIC_SEQ_CST); errno = ENOMEM; return true;
@@ -126,7 +177,7 @@ void* sim_malloc(size_t size) {
   if (g_sync.yield) g_sync.yield(YK_ALLOC, __builtin_return_address(0));
   if (should_fail(__builtin_frame_address(0))) return NULL;
   if (too_big(size)) return NULL;
-  void* p = malloc(size + g_alloc.pad);
+  void* p = raw_alloc(size + g_alloc.pad);
   if (!p) return NULL;
   junk_fill(p, size + g_alloc.pad);
   record(p, size, __builtin_frame_address(0));
@@ -138,7 +189,7 @@ void* sim_calloc(size_t n, size_t size) {
   size_t total;
   if (__builtin_mul_overflow(n, size, &total)) { errno = ENOMEM; return NULL; }
   if (too_big(total)) return NULL;
-  void* p = malloc(total + g_alloc.pad);
+  void* p = raw_alloc(total + g_alloc.pad);
   if (!p) return NULL;
   memset(p, 0, total);
   if (g_alloc.pad) junk_fill((char*) p + total, g_alloc.pad);
@@ -149,15 +200,16 @@ void sim_free(void* p) {
   if (!p) return;
   if (g_sync.yield) g_sync.yield(YK_FREE, __builtin_return_address(0));
   __atomic_add_fetch(&g_alloc.frees, 1, __ATOMIC_SEQ_CST);
-  if (g_alloc.track && unrecord(p) == (size_t) -1) __atomic_add_fetch(&g_alloc.foreign_frees, 1, __ATOMIC_SEQ_CST);
-  free(p);
+  size_t known = g_alloc.track ? unrecord(p) : (size_t) -1;
+  if (g_alloc.track && known == (size_t) -1) __atomic_add_fetch(&g_alloc.foreign_frees, 1, __ATOMIC_SEQ_CST);
+  raw_free(p, known);
 }
 void* sim_realloc(void* old, size_t size) {
   if (!old) {
     if (g_sync.yield) g_sync.yield(YK_ALLOC, __builtin_return_address(0));
     if (should_fail(__builtin_frame_address(0))) return NULL;
     if (too_big(size)) return NULL;
-    void* p = malloc(size + g_alloc.pad);
+    void* p = raw_alloc(size + g_alloc.pad);
     if (!p) return NULL;
     junk_fill(p, size + g_alloc.pad);
     record(p, size, __builtin_frame_address(0));
@@ -174,13 +226,13 @@ void* sim_realloc(void* old, size_t size) {
     if (it != live().end()) oldsz = it->second.size;
     pthread_mutex_unlock(&g_tab_mu);
   }
-  if (g_alloc.always_move && oldsz != (size_t) -1) {
-    void* p = malloc(size + g_alloc.pad);
+  if ((g_alloc.always_move || g_dh_on || dh_owns(old)) && oldsz != (size_t) -1) {
+    void* p = raw_alloc(size + g_alloc.pad);
     if (!p) return NULL;
     junk_fill(p, size + g_alloc.pad);
     memcpy(p, old, oldsz < size ? oldsz : size);
     unrecord(old);
-    free(old);     // ASan poisons it: any stale pointer into the old block now traps
+    raw_free(old, oldsz);     // poisoned: any stale pointer into the old block now traps
     record(p, size, __builtin_frame_address(0));
     g_alloc.moves++;
     return p;
@@ -196,7 +248,7 @@ char* sim_strdup(const char* s) {
   if (g_sync.yield) g_sync.yield(YK_ALLOC, __builtin_return_address(0));
   if (should_fail(__builtin_frame_address(0))) return NULL;
   size_t n = strlen(s) + 1;
-  char* p = (char*) malloc(n + g_alloc.pad);
+  char* p = (char*) raw_alloc(n + g_alloc.pad);
   if (!p) return NULL;
   memcpy(p, s, n);
   record(p, n, __builtin_frame_address(0));
@@ -206,7 +258,7 @@ char* sim_strndup(const char* s, size_t max) {
   if (g_sync.yield) g_sync.yield(YK_ALLOC, __builtin_return_address(0));
   if (should_fail(__builtin_frame_address(0))) return NULL;
   size_t n = strnlen(s, max);
-  char* p = (char*) malloc(n + 1 + g_alloc.pad);
+  char* p = (char*) raw_alloc(n + 1 + g_alloc.pad);
   if (!p) return NULL;
   memcpy(p, s, n); p[n] = 0;
   record(p, n + 1, __builtin_frame_address(0));
@@ -239,6 +291,7 @@ int sim_gettimeofday(struct timeval* tv, void* tz) {
   return 0;
 }
 static uint64_t g_rand_state = 12345;
+void sim_rand_seed(uint64_t s) { g_rand_state = s ? s : 12345; }
 void sim_srand(unsigned s) { (void) s; /* the run seed, not the wall clock, decides */ }
 int sim_rand(void) { g_rand_state = sim_mix64(g_rand_state); return (int) (g_rand_state & 0x7fffffff); }
 
